@@ -146,6 +146,14 @@ def spec_call(ex, e, fr):
         else:
             q = z3.Exists(bvs, body)
         return vbool(q)
+    if name in ("comp_rank", "comp_src"):
+        # position functions of a filtering comprehension `[x for x in S if C(x)]` held in a code variable:
+        # comp_rank(L, i) = index in L of S[i] (for i with C(S[i])),  comp_src(L, t) = index in S of L[t]
+        lst = ex.ev(e.args[0], fr)
+        f_ = (lst.meta or {}).get("rank" if name == "comp_rank" else "srcf")
+        if f_ is None:
+            raise Unsupported(f"{name}: the list is not the value of a filtering comprehension")
+        return vint(f_(ex.coerce(ex.ev(e.args[1], fr), "int").t))
     if name == "fresh":
         v = ex.ev(e.args[0], fr)
         oa = fr.old[1] if fr.old is not None else ex.alloc
